@@ -17,7 +17,7 @@ import random
 
 from . import common
 
-MODULES = ["CoapVerif.Props.C03", "CoapVerif.Findings.C03"]
+MODULES = ["CoapVerif.Props.C03", "CoapVerif.Findings.C03", "CoapVerif.Props.C03Gen"]
 GENERATED = ["TableShape.lean", "TokenHash.lean"]
 COLL_A, COLL_B = "01020304", "422ff442010203f4"   # equal CRC-64/ISO (DESIGN §6 F13)
 
@@ -252,6 +252,162 @@ def observe_blockwise_family(rng=None):
         "scn udp 1 obs:1:%s onote:%s:@1:1:st1 do:2:%s:non do:3:%s:non blkp:%s:40001:big-one-under-the-shared-token blkp:%s:40003:big-two-under-another-token settle" % (a, a, a, b, a, b),
         "scn udp 1 do:1:%s:non blkp:%s:40001:no-observation-at-all-here obs:2:%s onote:%s:@2:1:st1 do:3:%s:non blkp:%s:40003:and-now-with-one settle" % (a, a, a, a, a, a),
     ]
+    return out
+
+
+# ---------------------------------------------------------------------------------------------------------------------
+# requests whose token the LIBRARY chooses (cc.NewGetRequest → the connection's generator, message.GetToken by default), far along
+# in the generator's life: `auto`, `draw:<n>`, `many:<c0>:<n>:<typ>:<mid0>`, `$<caller>` (see harness/c03/c03_test.go)
+
+# numbers of tokens after which a generator that works on blocks, counters or tables could start over
+DRAW_BOUNDARIES = [16, 32, 64, 128, 255, 256, 512, 1000, 1024, 2048, 4096, 8192, 10000, 16384, 32768, 65535, 65536, 65537]
+
+
+def expand_many(tr, ops):
+    """`many` written out (exactly as the harness runs it)"""
+    out = []
+    for op in ops:
+        g = op.split(":")
+        if g[0] == "many" and len(g) == 5:
+            c0, n, m0 = int(g[1]), int(g[2]), int(g[4])
+            for i in range(n):
+                c = c0 + i
+                if tr == "tcp":
+                    out += ["auto:%d:con" % c, "peer:resp:$%d:0:m%d" % (c, c)]
+                elif g[3] == "con":
+                    out += ["auto:%d:con" % c, "peer:pig:$%d:@%d:m%d" % (c, c, c)]
+                else:
+                    out += ["auto:%d:non" % c, "peer:non:$%d:%d:m%d" % (c, (m0 + i) & 0xffff, c)]
+        else:
+            out.append(op)
+    return out
+
+
+def concretise(line, obs):
+    """The line the model and the judge read: `many` written out, every library-chosen token replaced by the value the harness saw
+    (event auto:<caller>:<tokhex>, taken out of the observation), every message the peer addressed by `$<caller>` marked as produced
+    for that request (sixth field for<caller>)."""
+    if not line.startswith("scn") or not (" auto:" in line or " many:" in line or "$" in line):
+        return line, obs
+    f = line.split()
+    ops = expand_many(f[1], f[3:])
+    segs = obs.split(";")
+    head = " ".join(f[:3])
+    if len(segs) != len(ops) + 1:
+        return head + " " + " ".join(ops), obs
+    tok = {}
+    oo, ss = [], [segs[0]]
+    for op, seg in zip(ops, segs[1:]):
+        plus = "+" if op.startswith("+") else ""
+        g = op.lstrip("+").split(":")
+        evs = seg.split(",")
+        if g[0] == "auto" and len(g) == 3:
+            for e in evs:
+                h = e.split(":")
+                if h[0] == "auto" and len(h) == 3 and h[1] == g[1]:
+                    tok[g[1]] = h[2]
+            evs = [e for e in evs if not e.startswith("auto:")]
+            g = ["auto", g[1], tok.get(g[1], "?"), g[2]]
+        elif g[0] == "peer" and len(g) == 5 and g[2].startswith("$"):
+            c = g[2][1:]
+            g = ["peer", g[1], tok.get(c, "?"), g[3], g[4], "for" + c]
+        oo.append(plus + ":".join(g))
+        ss.append(",".join(evs) if evs else "-")
+    return head + " " + " ".join(oo), ";".join(ss)
+
+
+def far_along_window(tr, bw, boundary, kinds, mid0, k=4, later=4, held=False):
+    """k exchanges with library-chosen tokens, then `boundary - k - 1` tokens drawn and dropped, then `later` further exchanges: the
+    generator is `boundary - k … boundary + later - 2` tokens further when they start.  While each later request is outstanding
+    the peer's answers to the earlier exchanges arrive once more (late duplicates: the piggybacked response again, a separate
+    response under a new message ID, the response frame again), then its own answer.  held: the earlier requests are not answered
+    before the later ones start (all outstanding together), the answers come in reverse order at the end."""
+    ops = []
+    mid = mid0
+
+    def answer(c, tag, kd):
+        nonlocal mid
+        if tr == "tcp":
+            return ["peer:resp:$%d:0:%s" % (c, tag)]
+        if kd == "pig":
+            return ["peer:pig:$%d:@%d:%s" % (c, c, tag)]
+        mid = (mid + 1) & 0xffff
+        if kd == "sep":
+            return ["peer:ack:-:@%d:0" % c, "peer:con:$%d:%d:%s" % (c, mid, tag)]
+        return ["peer:non:$%d:%d:%s" % (c, mid, tag)]
+
+    def typ(kd):
+        return "con" if tr == "tcp" or kd in ("pig", "sep") else "non"
+    early = list(range(1, k + 1))
+    for c in early:
+        ops.append("auto:%d:%s" % (c, typ(kinds[c % len(kinds)])))
+        if not held:
+            ops += answer(c, "e%d" % c, kinds[c % len(kinds)])
+    ops.append("draw:%d" % max(0, boundary - k - 1))
+    for c in range(k + 1, k + later + 1):
+        kd = kinds[c % len(kinds)]
+        ops.append("auto:%d:%s" % (c, typ(kd)))
+        if not held:
+            for e in early:
+                ke = kinds[e % len(kinds)]
+                ops += answer(e, "e%d" % e, "non" if ke == "sep" else ke)[-1:]
+            ops += answer(c, "l%d" % c, kd)
+    if held:
+        for c in range(k + later, 0, -1):
+            ops += answer(c, "h%d" % c, kinds[c % len(kinds)])
+    ops.append("settle")
+    return "scn %s %d %s" % (tr, bw, " ".join(ops))
+
+
+def far_along_run(tr, n, typ, mid0, boundaries):
+    """n complete exchanges on ONE connection, then one more request; while it is outstanding the answers to the exchanges that lie a
+    boundary number of tokens back arrive once more"""
+    ops = ["many:1:%d:%s:%d" % (n, typ, mid0)]
+    c = n + 1
+    ops.append("auto:%d:%s" % (c, "con" if tr == "tcp" else typ))
+    mid = mid0 + n
+    for b in boundaries:
+        for e in (c - b - 1, c - b, c - b + 1):
+            if 1 <= e <= n:
+                if tr == "tcp":
+                    ops.append("peer:resp:$%d:0:m%d" % (e, e))
+                elif typ == "con":
+                    ops.append("peer:pig:$%d:@%d:m%d" % (e, e, e))
+                else:
+                    mid += 1
+                    ops.append("peer:non:$%d:%d:m%d" % (e, mid & 0xffff, e))
+    if tr == "tcp":
+        ops.append("peer:resp:$%d:0:last" % c)
+    elif typ == "con":
+        ops.append("peer:pig:$%d:@%d:last" % (c, c))
+    else:
+        ops.append("peer:non:$%d:%d:last" % (c, (mid + 1) & 0xffff))
+    ops.append("settle")
+    return "scn %s 0 %s" % (tr, " ".join(ops))
+
+
+def far_along_family(rng, thorough):
+    out = []
+    # the shapes for every boundary: piggybacked / separate / non-confirmable on the datagram transport, frames on the stream
+    for i, b in enumerate(DRAW_BOUNDARIES):
+        out.append(far_along_window("udp", 0, b, ["pig"], 40000))
+        out.append(far_along_window("udp", i % 2, b, ["non", "pig", "sep"], mid_base(rng)))
+        out.append(far_along_window("tcp", i % 2, b, ["resp"], 0))
+        out.append(far_along_window("udp", 0, b, ["pig", "non"], 41000, held=True))
+        if thorough or b in (256, 512, 4096, 65536):
+            out.append(far_along_window("tcp", 0, b, ["resp"], 0, held=True))
+    # random windows
+    for _ in range(200 if thorough else 30):
+        tr = rng.choice(["udp", "udp", "tcp"])
+        kinds = ["resp"] if tr == "tcp" else [rng.choice(["pig", "non", "sep"]) for _ in range(3)]
+        out.append(far_along_window(tr, rng.choice([0, 0, 1]), rng.choice(DRAW_BOUNDARIES) + rng.choice([0, 0, 1, 2]), kinds, mid_base(rng),
+                                    k=rng.randint(2, 5), later=rng.randint(2, 5), held=rng.random() < 0.25))
+    # long runs on one connection (every token is used by a complete exchange)
+    runs = [("udp", 520, "con"), ("udp", 515, "non"), ("tcp", 514, "con"), ("udp", 1030, "con")]
+    if thorough:
+        runs += [("udp", 1027, "non"), ("tcp", 1026, "con"), ("udp", 4100, "con")]
+    for tr, n, typ in runs:
+        out.append(far_along_run(tr, n, typ, 100, [b for b in DRAW_BOUNDARIES if b < n]))
     return out
 
 
@@ -493,6 +649,8 @@ def gen_lines(ctx):
         L.append(gen_racy(rng))
     for i in range(3000 if thorough else 450):
         L.append(ERASE_FAMILY[i % len(ERASE_FAMILY)])
+    # library-chosen tokens, far along in the generator's life
+    L += far_along_family(rng, thorough)
     return L
 
 
@@ -521,6 +679,29 @@ def nontrivial(line, obs):
             if g[0] == "ret":
                 outstanding = [(c, t) for c, t in outstanding if c != g[1]]
     return hit
+
+
+def _short(s, n=600):
+    return s if len(s) <= n else s[:n // 2] + " … " + s[-n // 2:]
+
+
+def explain_lib(cline, impl):
+    """which library-chosen tokens were equal, and which call returned content produced for another one"""
+    toks = {}
+    eq = []
+    for op in cline.split()[3:]:
+        g = op.split(":")
+        if g[0] == "auto" and len(g) == 4:
+            for c, t in toks.items():
+                if t == g[2]:
+                    eq.append("caller %s got token %s, the token of caller %s" % (g[1], t, c))
+            toks[g[1]] = g[2]
+    wrong = []
+    for ev in impl.replace(";", ",").split(","):
+        h = ev.split(":")
+        if h[0] == "ret" and len(h) == 5 and h[2] == "ok" and h[4][:1] in "elmh" and h[4][1:].isdigit() and h[4][1:] != h[1]:
+            wrong.append("caller %s returned %s" % (h[1], h[4]))
+    return "; ".join(eq[:3] + wrong[:3]) or "library-chosen tokens"
 
 
 def _run_chunk(ctx, exe, lines, tag):
@@ -581,13 +762,17 @@ def evaluate(ctx, art, lines, tag="x"):
     impl = run_resilient(ctx, art, lines, tag)
     if impl is None or len(impl) != len(lines):
         return None
-    rc, model, _ = common.pipe_lines([art["driver"], "model"], lines)
-    rc2, judge, _ = common.pipe_lines([art["driver"], "judge"], [l + " | " + o for l, o in zip(lines, impl)])
-    rc3, cls, _ = common.pipe_lines([art["driver"], "classify"], lines)
+    # library-chosen tokens are filled in from the observation (the model and the judge read concrete tokens)
+    conc = [concretise(l, o) for l, o in zip(lines, impl)]
+    clines = [c[0] for c in conc]
+    impl = [c[1] for c in conc]
+    rc, model, _ = common.pipe_lines([art["driver"], "model"], clines)
+    rc2, judge, _ = common.pipe_lines([art["driver"], "judge"], [l + " | " + o for l, o in zip(clines, impl)])
+    rc3, cls, _ = common.pipe_lines([art["driver"], "classify"], clines)
     if rc or rc2 or rc3 or len(model) != len(lines) or len(judge) != len(lines) or len(cls) != len(lines):
         ctx.broken.append(("model", "C03 driver run failed", ""))
         return None
-    return list(zip(lines, impl, model, judge, cls))
+    return list(zip(lines, impl, model, judge, cls, clines))
 
 
 def explore(ctx, art):
@@ -597,8 +782,11 @@ def explore(ctx, art):
         return
     distinct = set()
     mism = 0
-    for line, impl, model, judge, cls in res:
+    for line, impl, model, judge, cls, cline in res:
         racy = "+" in line
+        lib = cline != line
+        if lib:
+            ctx.count("library-chosen-tokens")
         if impl == "skipped":
             ctx.count("skipped-after-process-crash")
             continue
@@ -642,9 +830,11 @@ def explore(ctx, art):
                 sig = "C03:%s:late-return-erases-successor" % clause
             else:
                 sig = "C03:%s:%s" % (clause, line)
-            what = ("tokens with equal CRC-64 in play: " if not inj else "") + "%s: observed `%s`: %s" % (line, impl, judge)
+            what = ("tokens with equal CRC-64 in play: " if not inj else "") + "%s: observed `%s`: %s" % (_short(line), _short(impl), judge)
+            if lib:
+                what += " [%s]" % explain_lib(cline, impl)
             ctx.violations.append(common.Violation(clause, sig, what, {"input": [line], "observed": impl, "judge": judge,
-                                                                      "model": model}))
+                                                                      "model": model, "with_tokens": cline if lib else None}))
             ctx.count("judge:" + clause + ("" if inj else ":collision"))
         if nontrivial(line, impl) and line not in distinct:
             distinct.add(line)
@@ -726,7 +916,9 @@ def replay(ctx, rep):
         print("replay could not run", ctx.broken)
         return 1
     bad = 0
-    for line, impl, model, judge, cls in res:
+    for line, impl, model, judge, cls, cline in res:
+        line = _short(cline, 2000)
+        impl, model = _short(impl, 2000), _short(model, 2000)
         print("%s\n  implementation: %s\n  model:          %s\n  judge:          %s  [%s]" % (line, impl, model, judge, cls))
         if judge != "ok":
             bad += 1
